@@ -14,6 +14,7 @@ import (
 
 	"github.com/cloudflare/circl/cipher/ascon"
 	"github.com/cloudflare/circl/ecc/bls12381"
+	"github.com/cloudflare/circl/ecc/bls12381/ff"
 	"github.com/cloudflare/circl/expander"
 	"github.com/cloudflare/circl/group"
 	"github.com/cloudflare/circl/hpke"
@@ -100,8 +101,48 @@ func runArgCall(c argCall) {
 	}
 }
 
+// constantAccessors: accessors of library constants (group orders, moduli)
+// return values of their own: the caller overwrites what it got, and the next
+// call - and the arithmetic that uses the constant - must be unaffected.  The
+// original octets are written back afterwards, so that a library that does
+// hand out its own storage is reported once and not left corrupted.
+func constantAccessors() {
+	lib.Mandatory("args:constant-accessors")
+	accs := []struct {
+		name string
+		f    func() []byte
+	}{
+		{"bls12381.Order", bls12381.Order},
+		{"ff.ScalarOrder", ff.ScalarOrder},
+		{"ff.FpOrder", ff.FpOrder},
+	}
+	for _, a := range accs {
+		first := a.f()
+		keep := lib.Clone(first)
+		for i := range first {
+			first[i] ^= 0x5A
+		}
+		second := lib.Clone(a.f())
+		// a scalar reduction that uses the order
+		var k bls12381.Scalar
+		k.SetBytes(append([]byte{1}, make([]byte, 40)...))
+		kb, _ := k.MarshalBinary()
+		copy(first, keep) // put back whatever we overwrote
+		var k2 bls12381.Scalar
+		k2.SetBytes(append([]byte{1}, make([]byte, 40)...))
+		kb2, _ := k2.MarshalBinary()
+		lib.Count("args:constant-accessors")
+		lib.CaseS("constant-accessor", a.name)
+		if !lib.Eq(second, keep) || !lib.Eq(kb, kb2) {
+			lib.Violation("C11:library-constant-handed-out:"+a.name, "TestVerifArgs", lib.D("accessor", a.name, "first_call", keep, "call_after_overwriting_the_first_result", second,
+				"reduction_changed", !lib.Eq(kb, kb2)))
+		}
+	}
+}
+
 func TestVerifArgs(t *testing.T) {
 	lib.Mandatory("args:calls", "args:decoded-then-scribbled")
+	constantAccessors()
 	n := lib.Scale(4, 100)
 	for i := 0; i < n; i++ {
 		r := lib.NewRng("c11/args", i)
